@@ -21,7 +21,10 @@ ALPHA_T = Alphabet(
 
 
 def cfg(tier):
-    return (ALPHA, 3) if tier == "quick" else (ALPHA_T, 4)
+    return (ALPHA, 3) if tier == "quick" else (ALPHA_T, 3)
+
+
+ALPHA_4 = Alphabet(max_ctx=2, add=ALPHA.add, fac=ALPHA.fac, look=ALPHA.look, drop=True)
 
 
 def params(tier):
@@ -30,8 +33,8 @@ def params(tier):
 
 
 @guard
-def rfn(a, tier):
-    alpha, K = cfg(tier)
+def rfn(a, tier, four=False):
+    alpha, K = (ALPHA_4, 4) if four else cfg(tier)
     ops = decode(a, alpha, K)
     div, eng = run_history(ops, listen="extra", check_events=True)
     summary = {"history": [o.text() for o in ops],
@@ -56,7 +59,7 @@ R = Harness(
         "slow one (1-slot queue, never reads, subscribed first) that a `drop` operation cancels in the middle of its stream; "
         "events compared after every step and after the final generating probes"
         if tier == "quick"
-        else "histories of 4 ops, plus a second name, a teardown-callback add, a non-callable teardown callback"
+        else "histories of 3 ops, plus a second name, a teardown-callback add, a non-callable teardown callback"
     ),
     oracle="per context, the received ResourceEvent sequence (types tuple, name, description, is_factory, source context, topic) equals the "
     "model's: one per successful add / factory registration / first generation, on that context only; none for failed calls and repeat lookups",
@@ -64,7 +67,21 @@ R = Harness(
     stubs=STUBS_COMMON,
 )
 
-HARNESSES = [R]
+R4 = Harness(
+    prop="C18",
+    name="R4",
+    fn=lambda a, tier: rfn(a, tier, True),
+    params=lambda tier: [P(f"o{i}", 0, max_options(ALPHA_4) - 1) for i in range(4)],
+    cube=lambda tier: 2,
+    tiers=("thorough",),
+    title="R-history of FOUR operations over <=2 contexts (the quick alphabet) with listeners",
+    bound_text=lambda tier: "histories of 4 ops over <=2 contexts with the quick tier's alphabet",
+    oracle=R.oracle,
+    outside=R.outside,
+    stubs=STUBS_COMMON,
+)
+
+HARNESSES = [R, R4]
 
 
 # ------------------------------------------------------------------------------ G-reuse
